@@ -74,7 +74,7 @@ Inductive stmt :=
 | SArrDivSc (x a : var) (e : expr)                      (* x = a / e *)
 | SCall (l : nat) (ts : list target) (f : string) (args : list arg)
 | SSeq (a b : stmt)
-| SIf (c : expr) (a b : stmt)
+| SIf (l : nat) (c : expr) (a b : stmt)
 | SWhile (l : nat) (c : expr) (body : stmt)
 | SFor (l : nat) (x : var) (lo hi : expr) (body : stmt) (* for x in range(lo, hi) *)
 | SForRun (l : nat) (x : var) (i hi : Z) (body : stmt)  (* run-time form of a for loop; never generated *)
